@@ -19,6 +19,7 @@ EXPLANATION = (
     "C07.6 nothing relocated is used before relocation: the call-graph closure of tiny_start::start::resolve contains no virtual call, no call through a function pointer, no read of a static, no call that lowers to a mem* symbol, and tiny-start is #![no_builtins]; "
     "C07.7 relocation arithmetic: REL adds the base to the word at base + r_offset, RELA stores base + r_addend, only entries whose type equals R_*_RELATIVE are touched, loop bounds are size / size_of(entry); "
     "C07.8 the vDSO call and the syscall fallback use the same clock id (MONOTONIC / REALTIME) and the fallback is taken exactly when the function pointer is None. "
+    "C07.7 argument delivery: ArgsOs::next yields argv[ind] under ind < num_args and the null tests only (never depending on the argument's bytes), the slot is arg_v + ind and ind advances by one; env values are split at the first '='. "
     "NOT decided: the delivered values as observed in the three link modes (linker, loader, code generation), ELF/vDSO parsing against real images, numerical agreement of the clocks.")
 ASSUMPTIONS = ["Linux process-entry stack layout (argc, argv[], NULL, envp[], NULL, auxv[])", "ELF64 Rel/Rela entry layout from linux_rust_bindings"]
 
@@ -244,6 +245,45 @@ def run_one(ck, prog):
                 steps.append((b["id"], fold(a[1]) if len(a) > 1 else None, a[0]))
         ok_step = len(steps) == 1 and steps[0][1] == 1 and canon(steps[0][2]).endswith("env_ptr") and cfg.in_cycle(steps[0][0]) and not cfg.dominates(m[0], steps[0][0]) is None
         ck.ob("C07.1", f"{nm}|scan-steps-one-entry", ok_step, fn=nm, detail=f"the environment cursor must advance by exactly one entry per round; steps found {[(b, c) for b, c, _ in steps]}")
+
+    # ---- C07.7 argument delivery: every argv[i], i < argc, is yielded whatever it contains ---------------------------------------
+    an = [f for p2, f in prog.fns.items() if p2.startswith("<tiny_std::env::ArgsOs as core::iter::traits::iterator::Iterator>::next")]
+    if ck.anchor("C07.7", "ArgsOs::next", an):
+        c7 = prog.ctx(an[0])
+        somes = [b["id"] for b in an[0]["blocks"] if b["id"] in c7.cfg.live_blocks() and not b.get("cleanup") and
+                 any(st["k"] == "assign" and st["dst"]["l"] == 0 and st["rv"]["k"] == "agg" and st["rv"].get("variant") == "Some" for st in b["stmts"])]
+        ck.ob("C07.7", "anchor|one-yield", len(somes) == 1, fn=an[0]["path"], detail=f"Some(..) returns: {len(somes)}")
+        for sb in somes:
+            extra = []
+            bound = False
+            for f in panics.dominating_facts(c7, sb):
+                if f[0] == "cmp" and f[1] in ("Lt", "Gt") and {"ind", "num_args"} <= {y[2] for x in (f[2], f[3]) for y in walk_deep(x, c7.prov) if y[0] == "field"}:
+                    bound = True
+                    continue
+                if f[0] == "truth" and f[2] is False and isinstance(f[1], tuple) and f[1][0] == "call" and (f[1][1] or "").endswith("::is_null"):
+                    continue
+                extra.append(f)
+            ck.ob("C07.7", "yield-under-index-bound", bound, fn=an[0]["path"], site=c7.site(sb), detail="an argument may only be produced under ind < num_args")
+            ck.ob("C07.7", "yield-does-not-depend-on-argument-contents", not extra, fn=an[0]["path"], site=c7.site(sb),
+                  detail=f"whether argv[i] is delivered depends on more than the index bound and the null tests: {[(show(f[1])[:80], f[2]) if f[0] == 'truth' else (f[1], show(f[2])[:60], show(f[3])[:60]) for f in extra]} - e.g. an empty-string argument would end the iteration early")
+        # the slot read is argv + ind and ind advances by one
+        adds = [bb for bb, t in c7.cfg.calls(lambda t: (t.get("callee") or "").endswith("const_ptr::<impl *const T>::add"))]
+        slot_ok = len(adds) == 1 and mentions(c7.args(adds[0])[0], c7.prov, lambda z: z[0] == "field" and z[2] == "arg_v") and mentions(c7.args(adds[0])[1], c7.prov, lambda z: z[0] == "field" and z[2] == "ind") and not mentions(c7.args(adds[0])[1], c7.prov, lambda z: z[0] == "bin")
+        ck.ob("C07.7", "slot-is-argv-plus-index", slot_ok, fn=an[0]["path"], detail="the argument slot must be ENV.arg_v.add(self.ind)")
+        steps = []
+        for b in an[0]["blocks"]:
+            for i, st in enumerate(b["stmts"]):
+                if st["k"] == "assign" and st["dst"].get("p") and st["dst"]["p"][-1]["k"] == "field" and st["dst"]["p"][-1].get("n") == "ind":
+                    steps.append(c7.prov.rvalue(st["rv"], (b["id"], i)))
+        ck.ob("C07.7", "index-advances-by-one", len(steps) == 1 and isinstance(strip_casts(steps[0]), tuple) and strip_casts(steps[0])[0] == "bin" and strip_casts(steps[0])[1] == "Add" and fold(strip_casts(steps[0])[3]) == 1, fn=an[0]["path"], detail=f"index updates: {[show(x) for x in steps]}")
+    # the value of a variable starts right after the FIRST '=' following the matched name (values may contain '=')
+    for nm in ("tiny_std::env::var", "tiny_std::env::var_unix"):
+        fn = prog.fns.get(nm)
+        if fn is None:
+            continue
+        c8 = prog.ctx(fn)
+        rev = [t.get("callee") for _, t in c8.cfg.calls(lambda t: any(x in (t.get("callee") or "") + (t.get("resolved") or "") for x in ("rposition", "rfind", "rsplit", "next_back", "::rev")))]
+        ck.ob("C07.1", f"{nm}|value-split-at-first-equals", not rev, fn=nm, detail=f"the entry is searched from the back ({rev}): a value containing '=' (KV=a=b) would be split at the wrong place and reported missing")
 
     # ---- C07.3 write-once statics ----------------------------------------------------------------------------------------
     pm = prog.fns.get(PROXY)
